@@ -118,6 +118,9 @@ type Client struct {
 	Ops          int
 	ListOrder    int // 0 sorted, 1 reverse, 2 permuted
 	NoPark       bool
+	// Script, if set, is asked first for every operation (n = running operation
+	// count of this client); a non-nil result overrides the random fault draw.
+	Script func(op string, h backend.Handle, n int) *Forced
 }
 
 // NewClient creates a handle for a process.
@@ -170,6 +173,12 @@ type decision struct {
 	delay time.Duration
 }
 
+// Forced is a fault the harness scripts for one specific operation.
+type Forced struct {
+	Kind  string        // "delay", "err-before", "err-after"
+	Delay time.Duration // for "delay"
+}
+
 func (c *Client) faultOK(t backend.FileType) bool {
 	if c.F.Budget == 0 {
 		return false
@@ -209,7 +218,23 @@ func (c *Client) op(op string, h backend.Handle, options func(t *simrt.Tape, d *
 	for {
 		d = decision{}
 		simrt.Park("be", detail, func(t *simrt.Tape) string {
-			if c.Dead || !c.faultOK(h.Type) {
+			if c.Dead {
+				return ""
+			}
+			if c.Script != nil {
+				if f := c.Script(op, h, c.Ops); f != nil {
+					if f.Kind == "delay" {
+						if !allowDelay {
+							return ""
+						}
+						d.kind, d.delay = "delay", f.Delay
+						return "scripted delay " + f.Delay.String()
+					}
+					d.kind = f.Kind
+					return "scripted " + f.Kind
+				}
+			}
+			if !c.faultOK(h.Type) {
 				return ""
 			}
 			if allowDelay && c.F.Delay > 0 && t.Chance(c.F.Delay) {
